@@ -436,7 +436,7 @@ fn index_sweep(rep: &Report, me: Prop, root: &Path, max_n: usize, forest_extra: 
 /// judged for layering / cycle rejection under every root subset
 fn shared_sweep(rep: &Report, me: Prop, root: &Path, tier: &str) {
     crate::c10::setup(root);
-    let b = crate::c10::Bounds { max_t: 3, max_uses: if tier == "thorough" { 2 } else { 1 }, perm_t: 3 };
+    let b = crate::c10::Bounds { max_t: 3, max_uses: if tier == "thorough" { 2 } else { 1 }, perm_t: 3, ign_t: 0 };
     let mut cases = crate::c10::enumerate(&b);
     if tier != "thorough" {
         // quick: the structurally different names only (the spelling variants are C10's own subject)
